@@ -252,6 +252,28 @@ example : recoverPriPoly 0 (S := Zq 7)
     [some ⟨4, some (priEval [3, 2, 5] 4)⟩, none, some ⟨0, some (priEval [3, 2, 5] 0)⟩,
      some ⟨2, some (priEval [3, 2, 5] 2)⟩] 3 5 = .ok ⟨0, [3, 2, 5]⟩ := by decide
 
+example : recoverPriPoly 0 (S := Zq 7)
+    [some ⟨4, some (priEval [3, 2, 5] 4)⟩, none, some ⟨0, some (priEval [3, 2, 5] 0)⟩,
+     some ⟨2, some (priEval [3, 2, 5] 2)⟩] 3 5 = .ok ⟨0, [3, 2, 5]⟩ :=
+  recoverPriPoly_correct 0 [3, 2, 5] 3 5 (by decide) (by decide) (zq_charGt 7 5 (by decide)) _
+    (by decide) (by decide) (by decide)
+
+example : recoverCommit (S := Zq 7) (P := Zq 7) true
+    [some ⟨4, some (priEval ([3, 2, 5] : List (Zq 7)) 4 • (4 : Zq 7))⟩, none, some ⟨7, some 1⟩,
+     some ⟨0, some (priEval ([3, 2, 5] : List (Zq 7)) 0 • (4 : Zq 7))⟩,
+     some ⟨2, some (priEval ([3, 2, 5] : List (Zq 7)) 2 • (4 : Zq 7))⟩,
+     some ⟨1, some (priEval ([3, 2, 5] : List (Zq 7)) 1 • (4 : Zq 7))⟩] 3 5
+      = .ok ((3 : Zq 7) • (4 : Zq 7)) :=
+  recoverCommit_correct_driver 7 true [3, 2, 5] 4 3 5 (by decide) (by decide) _
+    (by decide) (by decide) (by decide)
+
+example : priEqual (S := Zq 7) ⟨0, [3, 2]⟩ ⟨0, [3, 2, 0]⟩ = false ∧ priEqual (S := Zq 7) ⟨0, [3, 2]⟩ ⟨0, [3, 2]⟩ = true
+    ∧ priEqual (S := Zq 7) ⟨0, [3, 2]⟩ ⟨1, [3, 2]⟩ = false := by decide
+
+example : priAdd (S := Zq 7) ⟨0, [3, 2]⟩ ⟨0, [6, 6]⟩ = .ok ⟨0, [2, 1]⟩
+    ∧ pubAdd (commit (P := Zq 7) ⟨0, [3, 2]⟩ 4) (commit (P := Zq 7) ⟨0, [6, 6]⟩ 4)
+        = .ok (commit (P := Zq 7) ⟨0, [2, 1]⟩ 4) := by decide
+
 example : recoverSecret true (S := Zq 7) [some ⟨4, some 1⟩, none, some ⟨1, none⟩] 2 5 = .err .few :=
   (recover_too_few true 0 2 5 _ (by decide)).1
 
